@@ -182,7 +182,7 @@ impl Check for C07 {
         "fault_enumeration"
     }
     fn rule(&self) -> String {
-        "two kinds of evaluation: (a) honest simulated runs (circuits with NOT gates, all roles, n in 2..4); (b) attacked runs: every must-detect and optional deviation of the C04 catalogue (message deviations with the scripted adversary that never stops, self-consistent lies with the live adversary + taps) the structure-aware mutations of the online-phase messages, one per run, and a seeded swarm of multi-edit runs. Every single-message deviation is run twice: with the scripted adversary (keeps going whatever happens) and with the live adversary (real code on the corrupted side, so everything it transmits is computed from what it holds in this run). After each run everything sent by anyone is pooled, except counterfactual messages: what the scripted adversary replays after the honest parties' answers to it differ from the reference run (computed from another execution with the same secrets - a rewinding adversary, which the statement does not cover) and, causally, whatever honest parties send after consuming such a message; for every honest party h with probed global key D: D appears at no byte offset in either byte order; no two 16-byte windows (all offsets, both orders) XOR to D; no three decoded 128-bit fields XOR to D (pair budget per run: 3e5 in quick, 2e7 in thorough, which is exhaustive for the small configurations). In every run the engine itself reports (probe) whether the labels the evaluator holds for an AND gate open any of the three other rows of that gate; none may. The oracle is applied whatever the outcome of the run (a leak followed by an abort is a leak). distinct = (configuration, deviation) hash".into()
+        "two kinds of evaluation: (a) honest simulated runs (circuits with NOT gates, all roles, n in 2..4); (b) attacked runs: every must-detect and optional deviation of the C04 catalogue (message deviations with the scripted adversary that never stops, self-consistent lies with the live adversary + taps) the structure-aware mutations of the online-phase messages, one per run, and a seeded swarm of multi-edit runs. Every single-message deviation is run twice: with the scripted adversary (keeps going whatever happens) and with the live adversary (real code on the corrupted side, so everything it transmits is computed from what it holds in this run). After each run everything sent by anyone is pooled, except counterfactual messages: what the scripted adversary replays after the honest parties' answers to it differ from the reference run (computed from another execution with the same secrets - a rewinding adversary, which the statement does not cover) and, causally, whatever honest parties send after consuming such a message; for every honest party h with probed global key D: D appears at no byte offset in either byte order; no two 16-byte windows (all offsets, both orders) XOR to D; no three decoded 128-bit fields XOR to D (pair budget per run: 3e5 in quick, 3e6 in thorough, which is exhaustive for the small configurations). In every run the engine itself reports (probe) whether the labels the evaluator holds for an AND gate open any of the three other rows of that gate; none may. The oracle is applied whatever the outcome of the run (a leak followed by an abort is a leak). distinct = (configuration, deviation) hash".into()
     }
     fn assumptions(&self) -> Vec<String> {
         vec![
@@ -193,9 +193,9 @@ impl Check for C07 {
     fn cases(&self, tier: Tier, seed: u64) -> Vec<Value> {
         let (h, a) = match tier {
             Tier::Quick => (16, 8),
-            Tier::Thorough => (300, 120),
+            Tier::Thorough => (120, 40),
         };
-        let budget = if tier == Tier::Quick { 300_000 } else { 20_000_000 };
+        let budget = if tier == Tier::Quick { 300_000 } else { 3_000_000 };
         let mut v: Vec<Value> = (0..h).map(|k| json!({"seed": seed, "kind": "honest", "k": k, "budget": budget})).collect();
         for k in 0..a {
             for sh in 0..4 {
